@@ -485,7 +485,10 @@ func canonSetText(s set56) string { // MySQL's canonical text, written independe
 	return strings.Join(parts, ",")
 }
 
-type mg struct{ d, sv uint32; q uint64 }
+type mg struct {
+	d, sv uint32
+	q     uint64
+}
 
 func mariaAbs(l []mg) string {
 	var p []string
